@@ -7,6 +7,7 @@ import Ucan.Props.Tie.Meta
 import Ucan.Props.Tie.ChainTime
 import Ucan.Props.Tie.ChainProofs
 import Ucan.Props.Tie.ChainAllowed
+import Ucan.Props.Tie.ChainAllowedExact
 import Ucan.Props.Tie.Tokenize
 import Ucan.Props.C01
 import Ucan.Props.C04
@@ -163,14 +164,7 @@ theorem executionAllowed_ok_iff_spec {X L A : Type} (x : X) (args : Node) (undef
       ∃ ds, Chain.loadProofs (fun c => (ldG c).map (toDlg undef pol)) g.proof = .ok ds ∧
         Chain.PrincipalSpec (toInv x args g) ds ∧ Chain.CommandSpec (toInv x args g) ds ∧
         Chain.TimeSpec now (toInv x args g) ds ∧ Chain.PolicySpec ds args := by
-  rw [Inv_executionAllowed_eq x args undef pol now extGet extIPLD ldG g loader a hs hl hipld hpol]
-  have := Chain.C05_allowed_iff (fun c => (ldG c).map (toDlg undef pol)) now (toInv x args g) args
-  have hprf : (toInv x args g).prf = g.proof := rfl
-  rw [hprf] at this
-  rw [← this]
-  unfold liftE
-  cases Chain.executionAllowed (fun c => (ldG c).map (toDlg undef pol)) now (toInv x args g) args <;>
-    simp [Except.mapError]
+  exact Inv_executionAllowed_ok_iff_spec x args undef pol now extGet extIPLD ldG g loader a hs hl hipld hpol
 
 /-! ### the hypotheses can be met, and the regenerated code runs -/
 
